@@ -414,3 +414,166 @@ Proof.
   - intros c Hc. rewrite Ecls. apply O1; exact Hc.
   - exact Minit.
 Qed.
+
+Lemma Good_weaken s Gh def n : Good s Gh def -> Good s Gh (n :: def).
+Proof.
+  intros (T & [R1 R2 R3 R4 R5] & GI). split; [exact T|]. split; [|exact GI]. split; auto.
+  - intros x r H. destruct (R1 x r H). split; [right|]; auto.
+  - intros x H. right. auto.
+Qed.
+
+(* Meta.bind_to run by the initialiser found under a qualname *)
+Lemma bind_default_good s Gh def n r :
+  Good s Gh def -> Gh n = None -> decl_of s n <> None ->
+  (forall r0, cs_meta (st_cls s n) = Some r0 -> forall c, c <> n -> cs_meta (st_cls s c) <> Some r0) ->
+  (exists q, st_minit s q = Some r) ->
+  Good (bind_default s n r) Gh def /\
+  cs_meta (st_cls (bind_default s n r) n) = match cs_meta (st_cls s n) with Some r0 => Some r0 | None => Some r end /\
+  (forall c, c <> n -> st_cls (bind_default s n r) c = st_cls s c) /\
+  (forall q, st_minit (bind_default s n r) q = st_minit s q) /\
+  (forall c, decl_of (bind_default s n r) c = decl_of s c).
+Proof.
+  intros Hgood Hgh Hdn Hpriv (q & Hq).
+  pose proof Hgood as (T & R & _).
+  destruct (r_init _ _ R q r Hq) as (y & Ey & Hy & Ho).
+  destruct (st_mobjs s r) as [X|] eqn:EX; [|congruence].
+  rewrite (bind_default_core s n r X EX).
+  assert (Hobj : forall r0, cs_meta (st_cls s n) = Some r0 -> st_mobjs s r0 <> None).
+  { intros r0 H. apply (r_def _ _ R n r0 H). }
+  destruct (bind_core_post s n X r false Hobj (fun _ _ => EX)) as [B _].
+  split; [|split; [|split; [|split]]].
+  - apply bind_core_good; auto. intros _. split; [discriminate|]. intros _. split; [exact EX|]. exists y. auto.
+  - apply (b_meta _ _ _ _ B).
+  - apply (b_other _ _ _ _ B).
+  - apply (b_minit _ _ _ _ B).
+  - apply (b_decl _ _ _ _ B).
+Qed.
+
+Lemma step_define_good s Gh def cd :
+  Good s Gh def -> safe_op s Gh def (ODefine cd) = true ->
+  Good (fst (step_define s cd)) Gh (dstep def (ODefine cd)).
+Proof.
+  intros Hgood Hs. cbn [safe_op dstep] in *. unfold define_ok in Hs.
+  apply andb_true_iff in Hs. destruct Hs as [Hs1 Hs2].
+  set (info := cd_info cd) in *. set (n := ci_id info) in *.
+  assert (Hgh : Gh n = None) by (destruct (Gh n); [discriminate | reflexivity]).
+  unfold step_define. fold info. fold n.
+  destruct (cs_decl (st_cls s n)) as [d0|] eqn:Hdn; [apply Good_weaken; exact Hgood|].
+  destruct (resolve_fields s (cd_fields cd)) as [fields|] eqn:Erf; [|apply Good_weaken; exact Hgood].
+  destruct (negb (ci_wiz info) && match ci_inner info with Some _ => true | None => false end) eqn:Eb;
+    [apply Good_weaken; exact Hgood|].
+  destruct (def_base_good s Gh def info fields Hgood Hgh Hdn (resolve_fields_children s _ _ Erf))
+    as (G2 & M2 & D2 & NoMI & O2 & Mi2).
+  fold n in G2, M2, D2, NoMI, O2, Mi2.
+  destruct (ci_wiz info) eqn:Ew.
+  2:{ cbn [fst]. unfold def_base in G2. fold n in G2. rewrite Ew in G2. exact G2. }
+  (* JSONWizard subclass: the two initialiser calls *)
+  set (s2 := def_base s info fields) in *.
+  assert (Es2 : match ci_inner info with
+                | Some m => set_minit (set_mobj (updc s n (fun _ => w_decl (Some (CDecl info fields)) cs0)) (MI n) m) (ci_qn info) (MI n)
+                | None => updc s n (fun _ => w_decl (Some (CDecl info fields)) cs0)
+                end = s2).
+  { unfold s2, def_base. fold n. rewrite Ew. reflexivity. }
+  rewrite Es2.
+  set (s3 := match st_minit s2 (ci_qn info) with Some r => bind_default s2 n r | None => s2 end).
+  assert (S3 : Good s3 Gh (n :: def) /\ decl_of s3 n <> None /\
+               (forall r0, cs_meta (st_cls s3 n) = Some r0 -> forall c, c <> n -> cs_meta (st_cls s3 c) <> Some r0)).
+  { unfold s3. destruct (st_minit s2 (ci_qn info)) as [r|] eqn:Eq.
+    - assert (r = MI n).
+      { rewrite Mi2, Nat.eqb_refl in Eq. cbn [andb] in Eq. destruct (ci_inner info); cbn in Eq; [congruence|].
+        rewrite Eq in Hs2. discriminate. }
+      subst r.
+      destruct (bind_default_good s2 Gh (n :: def) n (MI n) G2 Hgh D2) as (G3 & M3 & O3 & _ & D3).
+      + intros r0 H0. congruence.
+      + exists (ci_qn info). exact Eq.
+      + split; [exact G3|]. split; [rewrite D3; exact D2|].
+        intros r0 H0 c Hc. rewrite M3, M2 in H0. inversion H0; subst r0. rewrite (O3 c Hc). apply NoMI.
+    - split; [exact G2|]. split; [exact D2|]. intros r0 H0. congruence. }
+  destruct S3 as (G3 & D3 & P3). cbn [fst].
+  destruct (ci_base_qn info) as [bq|]; [|exact G3].
+  destruct (st_minit s3 bq) as [rb|] eqn:Eqb; [|exact G3].
+  apply (bind_default_good s3 Gh (n :: def) n rb G3 Hgh D3 P3). exists bq. exact Eqb.
+Qed.
+
+(* ---------------------------------------------------------------- one operation *)
+Lemma refs_ok_dp s s' def : same_dp s s' -> refs_ok s def -> refs_ok s' def.
+Proof.
+  intros (H1 & H2 & H3) [R1 R2 R3 R4 R5].
+  assert (Hm : forall x, cs_meta (st_cls s' x) = cs_meta (st_cls s x)) by (intro; apply H1).
+  assert (Hd : forall x, decl_of s' x = decl_of s x) by (intro; apply H1).
+  split.
+  - intros x r H. rewrite Hm in H. rewrite H2. auto.
+  - intros x y H. rewrite Hm in H. eauto.
+  - intros x y H. rewrite Hm in H. rewrite Hd. eauto.
+  - intros q r H. rewrite H3 in H. destruct (R4 q r H) as (y & -> & A & B). exists y. rewrite Hd, H2. auto.
+  - intros x H. rewrite Hd in H. auto.
+Qed.
+
+Lemma step_good s Gh def o :
+  Good s Gh def -> safe_op s Gh def o = true ->
+  Good (fst (step s o)) (gstep s Gh o) (dstep def o) /\
+  (is_def o = false -> snd (step s o) = pure_op s o /\ same_dp s (fst (step s o))).
+Proof.
+  intros Hgood Hs. destruct o as [cd | c m | c attr doc | attr v]; cbn [step is_def].
+  - split; [|discriminate]. cbn [gstep]. now apply step_define_good.
+  - split; [|discriminate]. cbn [gstep dstep]. now apply step_bind_good.
+  - destruct Hgood as (T & R & G & I & L).
+    destruct (step_load s c attr doc) as [s' out] eqn:E.
+    destruct (step_load_spec G Gh def s c attr doc s' out I T L Hs E) as (Ho & G' & I' & L' & P').
+    cbn [fst snd dstep]. split.
+    + split; [eapply trees_ok_pres; eauto|]. split; [eapply refs_ok_dp; eauto; apply P'|]. exists G'. auto.
+    + intros _. split; [exact Ho | apply P'].
+  - destruct Hgood as (T & R & G & I & L).
+    destruct (step_dump s attr v) as [s' out] eqn:E.
+    destruct (step_dump_spec G Gh def s attr v s' out I T L Hs E) as (Ho & G' & I' & L' & P').
+    cbn [fst snd dstep]. split.
+    + split; [eapply trees_ok_pres; eauto|]. split; [eapply refs_ok_dp; eauto; apply P'|]. exists G'. auto.
+    + intros _. split; [exact Ho | apply P'].
+Qed.
+
+Lemma Good_init : Good init g0 [].
+Proof.
+  split; [|split].
+  - intros c d H. discriminate.
+  - split; cbn; intros; try discriminate; try tauto.
+  - exists g0. split; [|intros x e H; exact H]. intro n. split; cbn; try reflexivity; try discriminate; try tauto.
+    intros _. repeat split; reflexivity.
+Qed.
+
+(* ---------------------------------------------------------------- histories *)
+Fixpoint ghist (s : sigma) (G : gov) (def : list cid) (h : list op) : sigma * gov * list cid :=
+  match h with
+  | [] => (s, G, def)
+  | o :: r => ghist (fst (step s o)) (gstep s G o) (dstep def o) r
+  end.
+
+Lemma ghist_run h : forall s G def, fst (fst (ghist s G def h)) = run s h.
+Proof. induction h as [|o r IH]; intros s G def; cbn [ghist]; [reflexivity|]. rewrite IH. reflexivity. Qed.
+
+Lemma safe_from_app h h2 : forall s G def,
+  safe_from s G def (h ++ h2) =
+  safe_from s G def h && safe_from (fst (fst (ghist s G def h))) (snd (fst (ghist s G def h))) (snd (ghist s G def h)) h2.
+Proof.
+  induction h as [|o r IH]; intros; cbn [app safe_from ghist fst snd]; auto.
+  rewrite IH. now rewrite andb_assoc.
+Qed.
+
+(* the memo invariant holds after every safe history *)
+Lemma Good_ghist h : forall s G def, Good s G def -> safe_from s G def h = true ->
+  Good (fst (fst (ghist s G def h))) (snd (fst (ghist s G def h))) (snd (ghist s G def h)).
+Proof.
+  induction h as [|o r IH]; intros s G def Hg Hs; cbn [ghist fst snd]; auto.
+  cbn [safe_from] in Hs. apply andb_true_iff in Hs. destruct Hs as [H1 H2].
+  apply IH; auto. apply (step_good s G def o Hg H1).
+Qed.
+
+Definition Inv (s : sigma) : Prop := exists G, InvG G s.
+
+Theorem Inv_init : Inv init.
+Proof. destruct Good_init as (_ & _ & G & I & _). exists G. exact I. Qed.
+
+Theorem Inv_run h : safe_history h = true -> Inv (run init h).
+Proof.
+  intro Hs. pose proof (Good_ghist h init g0 [] Good_init Hs) as (_ & _ & G & I & _).
+  rewrite ghist_run in I. exists G. exact I.
+Qed.
